@@ -58,6 +58,9 @@ type Opts struct {
 	// EdgeOK: nil means every CFG edge; otherwise edge (from, succ index) is
 	// followed only when it returns true.
 	EdgeOK func(from *ssa.BasicBlock, succ int) bool
+	// EdgeOKVia: like EdgeOK, with the predecessor the block was entered from (nil when the walk started inside
+	// the block) — needed for virtual branches, which are decided per incoming edge.
+	EdgeOKVia func(via, from *ssa.BasicBlock, succ int) bool
 	// KeepNoReturn: when false (default) calls to functions that never return
 	// (os.Exit, panicking helpers) end the path like a panic.
 	KeepNoReturn bool
@@ -648,7 +651,8 @@ func Reach(starts []Pt, o Opts) Result {
 			return
 		}
 		k := key{p.B, p.I, env.sig}
-		if p.I == 0 && from != nil && returnsPhi(p.B) {
+		_, cph := condPhi(p.B)
+		if p.I == 0 && from != nil && (returnsPhi(p.B) || (o.EdgeOKVia != nil && cph != nil)) {
 			// the results depend on the edge the block is entered through: one visit per predecessor
 			for i, pr := range p.B.Preds {
 				if pr == from {
@@ -778,6 +782,9 @@ func Reach(starts []Pt, o Opts) Result {
 				continue
 			}
 			if o.EdgeOK != nil && !o.EdgeOK(b, si) {
+				continue
+			}
+			if o.EdgeOKVia != nil && !o.EdgeOKVia(it.from, b, si) {
 				continue
 			}
 			env := it.env
